@@ -58,7 +58,7 @@ def one_run(base, inp, fmt, seed, cwd, cache, buf, k, inproc):
     if not ind.exists():
         ind.mkdir(parents=True)
         if inp.startswith("spec:"):
-            d = Path("/repo/tests/data") / inp[5:]
+            d = C.REPO / "tests" / "data" / inp[5:]
             shutil.copy(glob.glob(str(d / "*-input*.tpf"))[0], ind / "in2.tpf")
             shutil.copy(glob.glob(str(d / "*-pretext*.agp"))[0], ind / "p.agp")
         else:
@@ -128,7 +128,7 @@ def main(tier, replay=None):
     plan = PLANS[tier]
     root = str(run.sub("cli"))
     rng = random.Random(C.seed())
-    specimens = ["spec:" + os.path.basename(d.rstrip("/")) for d in sorted(glob.glob("/repo/tests/data/*/"))]
+    specimens = ["spec:" + os.path.basename(d.rstrip("/")) for d in sorted(glob.glob(str(C.REPO / "tests" / "data") + "/*/"))]
     jobs = [(root, i, f) for i in INPUTS for f in ("fa", "agp", "tpf")] + [(root, s, "tpf") for s in specimens]
     refs = {}
     for inp, fmt, rc, files, asm in C.pmap("harness.c17", "reference", jobs, chunk=1):
